@@ -51,6 +51,17 @@ def frameSize : List (String × VType) → Nat
   | [] => 0
   | (_, t) :: r => t.size + frameSize r
 
+/-- get_param_size: the storage of a parameter in the callee's frame is ONE cell whatever it refers to (a scalar, a whole
+    record, an array): the caller passes a reference -/
+def paramSlot (_ : VType) : VType := .dyn
+
+/-- the declarations of a routine's frame in storage order: parameters (one cell each), then locals -/
+def routineFrame (params locals : List (String × VType)) : List (String × VType) :=
+  params.map (fun p => (p.1, paramSlot p.2)) ++ locals
+
+/-- the frame as it was sized before the repair: a record parameter took the room of the whole record -/
+def routineFrameOld (params locals : List (String × VType)) : List (String × VType) := params ++ locals
+
 /-- get_dotted_index: offset of the field reached by a path of field positions; `none` = bad path -/
 def fieldOffset : FType → List Nat → Option Nat
   | _, [] => some 0
